@@ -16,11 +16,11 @@ import (
 
 func init() {
 	register(&Prop{ID: "C09", Run: runC09, Enum: enumC09, Quick: 6000, Thorough: 40000, Level: "fault_enumeration",
-		Exhaustive: "adversary (10 kinds) x every stall offset k of the scripted frame x local state (7) x call (Close, CloseNow, CloseRead self-close) x role"})
+		Exhaustive: "adversary (11 kinds) x every stall offset k of the scripted frame x local state (8) x call (Close, CloseNow, CloseRead self-close) x role"})
 }
 
-var c09Adv = []string{"silent", "stall-data2", "stall-data4", "stall-data10", "stall-close", "flood", "huge", "never-reads", "half-close", "echo"}
-var c09State = []string{"idle", "reader-blocked", "half-read-in-frame", "half-read-frame-end", "closeread", "writer-blocked", "ping-waiting"}
+var c09Adv = []string{"silent", "stall-data2", "stall-data4", "stall-data10", "stall-close", "flood", "huge", "never-reads", "half-close", "echo", "never-reads-sends-pongs"}
+var c09State = []string{"idle", "reader-blocked", "half-read-in-frame", "half-read-frame-end", "closeread", "writer-blocked", "ping-waiting", "closeread+ping-waiting"}
 var c09Call = []string{"Close", "CloseNow", "none"}
 var c09EchoDelays = []time.Duration{0, 4900 * time.Millisecond, 5100 * time.Millisecond}
 
@@ -152,9 +152,10 @@ func runC09(r *Run) {
 	r.S.Stick = []int{0, 60}[t.Draw(2)]
 	r.S.Count("fault.adv-" + c09Adv[adv])
 
-	if adv == 7 || st == 5 {
+	neverReads := adv == 7 || adv == 10
+	if neverReads || st == 5 {
 		rc.Lib.Out().Cap = 4096
-		if adv == 7 && st != 5 && zeroWindow {
+		if neverReads && st != 5 && (zeroWindow || adv == 10) {
 			rc.Lib.Out().Cap = 0 // the very first byte the library writes blocks
 		}
 		rc.Lib.Out().HardCap = true
@@ -257,6 +258,21 @@ func runC09(r *Run) {
 			_ = c.Write(bg, websocket.MessageBinary, Payload{Kind: 2, Len: 60000, Seed: 9}.Bytes())
 			*d = r.S.Now()
 		})
+	case 7:
+		// CloseRead does the reading while a Ping is in flight
+		dctx := track("closeread-ctx")
+		ctx := c.CloseRead(bg)
+		r.S.Go("crwatch", func() {
+			<-ctx.Done()
+			*dctx = r.S.Now()
+			r.S.Kick()
+		})
+		d := track("pinger")
+		r.S.Go("pinger", func() {
+			stateReady = true
+			_ = c.Ping(bg)
+			*d = r.S.Now()
+		})
 	case 6:
 		d := track("pinger")
 		r.S.Go("pinger", func() {
@@ -284,6 +300,15 @@ func runC09(r *Run) {
 				}
 				return true
 			}, nil)
+			if adv == 10 {
+				// pongs guessing the payloads of the library's pings ("1", "2", ...),
+				// each several times, while the pings themselves are stuck in the transport
+				var fs []wsref.Frame
+				for _, p := range []string{"1", "1", "1", "2", "2", "x"} {
+					fs = append(fs, wsref.Frame{Fin: true, Opcode: wsref.OpPong, Payload: []byte(p)})
+				}
+				peer.Inject(peer.Encode(fs...))
+			}
 			r.S.Sleep(preDelay)
 			r.S.Park("a.caller.go")
 			callStarted = true
@@ -314,7 +339,7 @@ func runC09(r *Run) {
 	}
 
 	// ---- the adversary
-	reads := adv != 7
+	reads := !neverReads
 	if reads {
 		r.S.Go("peer-rd", func() {
 			if st == 5 {
